@@ -64,6 +64,8 @@ class Checker:
     def __init__(self, run, A):
         self.run, self.A = run, A
         self.resolved = 0
+        self.matched = {}      # id(alt) -> set of matched Prod ids
+        self.missing = {}      # id(alt) -> [(q, label, rule)]
 
     def graph(self, q):
         return self.A.graphs.get(self.A.prog.func(q))
@@ -81,10 +83,12 @@ class Checker:
         short = q.split('::')[1]
         hits = find(alt, pred)
         if not hits:
-            self.run.unresolved(rule, f'{short}: {label}', fn.loc(), 'atom not recognised in the linearised return value')
+            # decided by close(): a vanished term is a violation when everything that is left has been recognised
+            self.missing.setdefault(id(alt), []).append((q, label, rule, alt))
             return None
         self.resolved += 1
         p, atom = hits[0]
+        self.matched.setdefault(id(alt), set()).update(id(h[0]) for h in hits)
         others = [f for f in p.factors if f is not atom]
         ok_sign = (p.coef > 0) == (want_sign > 0)
         ok_coef = exact_coef is None or abs(abs(p.coef) - exact_coef) < 1e-12
@@ -101,6 +105,23 @@ class Checker:
                        f'{"" if exact_coef is None else ", magnitude " + str(exact_coef)}), missing factors {missing}, unexpected factors {[repr(e)[:40] for e in extra]}',
                        construct=f'{rule}::{q}::{label}')
         return p, atom
+
+
+def close_terms(ck):
+    """expected atoms that were not found: if every remaining product of that return expression was recognised as some
+    other expected atom, the term was dropped (violation); if unrecognised products remain, the code may have been
+    reformulated (unresolved)"""
+    for aid, items in ck.missing.items():
+        for q, label, rule, alt in items:
+            fn = ck.A.prog.func(q)
+            short = q.split('::')[1]
+            left = [p for p in alt if id(p) not in ck.matched.get(aid, set())]
+            if not left:
+                ck.run.violation(rule, f'{short}: {label}', fn.loc(), f'the term `{label}` is missing from the density: the expression consists only of '
+                                 f'{len(alt)} other recognised term(s)', construct=f'{rule}::{q}::{label}::missing')
+            else:
+                ck.run.unresolved(rule, f'{short}: {label}', fn.loc(), f'atom not recognised; {len(left)} unrecognised product(s) remain in the expression')
+    ck.missing = {}
 
 
 def quad_sum_of_squares(t):
@@ -522,6 +543,7 @@ def check(run):
     check_watson(ck)
     check_bingham(ck)
     check_cacg(ck)
+    close_terms(ck)
     # generic sesquilinear rule on every einsum of the density files
     n = 0
     for s in ein.enumerate_sites(A):
